@@ -149,11 +149,11 @@ class Bd(Harness):
                        'trivial')
 
     # ---- numeric ------------------------------------------------------------------
-    def _numeric(self, cfg, rng):
+    def _numeric(self, cfg, rng, scale=1.0):
         bd = repo_module(BD)
         K, n = cfg['K'], cfg['n']
         N = K * n
-        H = crandn(rng, N, N)
+        H = crandn(rng, N, N) * scale
         iPu, nv = rng.uniform(0.2, 3), rng.uniform(0.01, 1)
         if cfg.get('reassign'):
             obj = bd.BlockDiagonalizer(K, rng.uniform(0.2, 3),
@@ -291,6 +291,32 @@ class Bd(Harness):
         for _ in range(5):
             bad = self._numeric(cfg, rng)
             assert not bad, bad
+        # the property does not depend on the scale of the channel (path
+        # loss folded into it) nor on how the numbers are represented
+        for scale in (1e-8, 1e-4, 1e6):
+            for kk, nn in ((cfg['K'], cfg['n']), (2, 2), (3, 2)):
+                try:
+                    bad = self._numeric(dict(cfg, K=kk, n=nn), rng,
+                                        scale=scale)
+                except Exception as e:   # noqa
+                    bad = ['exception:' + type(e).__name__]
+                if bad:
+                    raise ConcreteViolation(
+                        'C09/bd/channel-scale:' + '+'.join(bad),
+                        dict(K=kk, n=nn, scale=scale, wf=cfg['wf']))
+        from pysym import probes
+        bdm = repo_module(BD)
+
+        def run(H, iPu, nv, K):
+            obj = bdm.BlockDiagonalizer(K, iPu, nv)
+            return (obj.block_diagonalize(H) if cfg['wf'] else
+                    obj.block_diagonalize_no_waterfilling(H))
+        for (K_, n_, iPu) in ((2, 2, 1.0), (2, 2, 5.0), (3, 1, 3.0)):
+            Hp = crandn(rng, K_ * n_, K_ * n_)
+            probes.require('C09/bd', run, [Hp, iPu, 1.0, K_], rtol=1e-7,
+                           atol=1e-9, vary=(0, 1, 2),
+                           kinds=('readonly', 'fortran', 'strided',
+                                  'pyscalar'), check_result_alias=False)
         # larger systems only concretely
         big = dict(K=3, n=2, wf=cfg['wf'], reassign=cfg.get('reassign'))
         assert not self._numeric(big, rng)
